@@ -9,8 +9,9 @@ pub fn run(id: &str) -> String {
     }
 }
 
-/// F1: new_substr on an inline atom whose slice is not a minimal small integer grows the heap
-/// (C12) without a limit check (C13).
+/// F1: new_substr on an inline atom whose slice is not a minimal small integer grows the heap (C12: substrings
+/// are documented to share their parent's bytes).  The missing limit check (C13, and its consequence for C04)
+/// was repaired by a fix: commit; what remains is the accounting.
 fn f1() -> String {
     let mut a = Allocator::new_limited(10);
     let n = a.new_small_number(0x80).unwrap();
@@ -25,7 +26,7 @@ fn f1() -> String {
         }
         last = a.heap_size();
     }
-    let reproduced = grew == 1 && last > 10 && a.atom(s).as_ref() == [0u8];
+    let reproduced = grew == 1 && a.atom(s).as_ref() == [0u8];
     format!(
         "{{\"finding\":\"F1\",\"reproduced\":{reproduced},\"input\":\"new_limited(10); n=new_small_number(0x80); new_substr(n,0,1) x21\",\"heap_before\":{before},\"heap_after_one\":{after},\"heap_after_21\":{last},\"heap_limit\":10}}"
     )
